@@ -28,7 +28,7 @@ def child(x):
 
 
 class VErr(Exception):
-    __bool__ = lambda self: False       # unusual but legal: a falsy exception object
+    __bool__ = lambda self: sum(map(ord, str(self.args))) % 2 == 0       # unusual but legal: about half of the exception objects are falsy
 
     """what a failing body raises; the payload says which body ran with which bound object and arguments"""
 
